@@ -6,6 +6,8 @@ import (
 	"encoding/json"
 	"fmt"
 	"os"
+	"regexp"
+	"slices"
 	"sort"
 	"strings"
 	"sync"
@@ -35,6 +37,7 @@ type wAct struct {
 	Mode      string      `json:"mode,omitempty"` // single | kind | agg
 	ID        string      `json:"id,omitempty"`
 	Sel       [][]selTerm `json:"sel,omitempty"`
+	IDs       []string    `json:"ids,omitempty"` // kind / aggregated: ID query ^(id1|id2)$
 	Bootstrap bool        `json:"bootstrap,omitempty"`
 	BootBm    bool        `json:"bootbm,omitempty"`
 	Start     string      `json:"start,omitempty"` // default | tail | real | forged | garbage | foreign
@@ -69,6 +72,26 @@ func termOpts(t selTerm) resource.LabelQueryOption {
 	default:
 		return resource.LabelLTE(t.Key, t.Vals[0], opts...)
 	}
+}
+
+// withIDTerm folds an ID query into the selector the way WatchCheck.sel_matches reads it: a term on the reserved key "".
+func withIDTerm(sel [][]selTerm, ids []string) [][]selTerm {
+	if len(ids) == 0 {
+		return sel
+	}
+
+	idt := selTerm{Key: "", Op: 2, Vals: ids}
+
+	if len(sel) == 0 {
+		return [][]selTerm{{idt}}
+	}
+
+	out := make([][]selTerm, len(sel))
+	for i, q := range sel {
+		out[i] = append([]selTerm{idt}, q...)
+	}
+
+	return out
 }
 
 func coqSel(sel [][]selTerm) string {
@@ -154,6 +177,7 @@ type liveWatcher struct {
 	agg    chan []state.Event
 	cancel context.CancelFunc
 	sel    [][]selTerm
+	ids    []string
 	id     string
 	// Go-side monitor: replica built from delivered events
 	replica   map[string]resource.Resource
@@ -244,7 +268,7 @@ func runWatchScenario(t *testing.T, sc wScenario) (res scenarioResult) {
 
 				items = append(items, "(SList "+l+")")
 			case "start":
-				w := &liveWatcher{mode: a.Mode, sel: a.Sel, id: a.ID, replica: map[string]resource.Resource{}, bootstrap: a.Bootstrap, startKind: a.Start}
+				w := &liveWatcher{mode: a.Mode, sel: a.Sel, ids: a.IDs, id: a.ID, replica: map[string]resource.Resource{}, bootstrap: a.Bootstrap, startKind: a.Start}
 				wctx, wcancel := context.WithCancel(ctx)
 				w.cancel = wcancel
 
@@ -328,6 +352,10 @@ func runWatchScenario(t *testing.T, sc wScenario) (res scenarioResult) {
 						opts = append(opts, state.WatchWithLabelQuery(lo...))
 					}
 
+					if len(a.IDs) > 0 {
+						opts = append(opts, state.WatchWithIDQuery(resource.IDRegexpMatch(regexp.MustCompile("^("+strings.Join(a.IDs, "|")+")$"))))
+					}
+
 					if a.Mode == "agg" {
 						coqMode = "MAgg"
 						w.agg = make(chan []state.Event)
@@ -352,7 +380,7 @@ func runWatchScenario(t *testing.T, sc wScenario) (res scenarioResult) {
 				}
 
 				synctest.Wait()
-				items = append(items, fmt.Sprintf("(SStart %s %s %s %s %s %s %s)", coqN(uint64(a.K)), coqMode, coqSel(a.Sel), coqBool(a.Bootstrap), coqBool(a.BootBm), coqStart, coqBool(accepted)))
+				items = append(items, fmt.Sprintf("(SStart %s %s %s %s %s %s %s)", coqN(uint64(a.K)), coqMode, coqSel(withIDTerm(a.Sel, a.IDs)), coqBool(a.Bootstrap), coqBool(a.BootBm), coqStart, coqBool(accepted)))
 			case "recv":
 				w, ok := watchers[a.K]
 				if !ok {
@@ -553,7 +581,7 @@ func replayMonitor(ctx context.Context, st state.CoreState, w *liveWatcher, res 
 			continue
 		}
 
-		if len(w.sel) == 0 || selMatchesGo(w.sel, r) {
+		if (len(w.ids) == 0 || slices.Contains(w.ids, r.Metadata().ID())) && (len(w.sel) == 0 || selMatchesGo(w.sel, r)) {
 			want[r.Metadata().ID()] = r.Metadata().Version().String()
 		}
 	}
@@ -681,6 +709,10 @@ func genWatchScenario(r *rng, n int, handle string) wScenario {
 
 			if a.Mode != "single" {
 				a.Sel = genSel(r)
+
+				if r.chance(1, 4) {
+					a.IDs = pick(r, [][]string{{"a"}, {"a", "b"}, {"b", "c"}, {"c"}})
+				}
 			}
 
 			switch y := r.intn(100); {
@@ -819,6 +851,13 @@ func runWatchProperty(t *testing.T, prop string, rule string, gen func(r *rng) [
 		scs = gen(newRng(seed(), prop))
 	}
 
+	runWatchScenarios(t, dir, rep, prop, scs)
+	rep.write(t, dir)
+}
+
+// runWatchScenarios runs the scenarios on the real code, compares every delivered batch with the model (WatchCheck) and
+// applies the Go-side monitors; results go into rep.
+func runWatchScenarios(t *testing.T, dir string, rep *Report, prop string, scs []wScenario) {
 	const shard = 120
 
 	var (
@@ -866,7 +905,6 @@ func runWatchProperty(t *testing.T, prop string, rule string, gen func(r *rng) [
 	}
 
 	flush()
-	rep.write(t, dir)
 }
 
 func TestC02(t *testing.T) {
